@@ -67,11 +67,11 @@ func (r *Recorder) Case(nontrivial bool, key []byte, classes ...string) {
 	}
 }
 
-func (r *Recorder) Class(c string)              { r.mu.Lock(); r.classes[c]++; r.mu.Unlock() }
-func (r *Recorder) Excluded(c string)           { r.mu.Lock(); r.excluded[c]++; r.mu.Unlock() }
-func (r *Recorder) Count(c string, n int64)     { r.mu.Lock(); r.counters[c] += n; r.mu.Unlock() }
-func (r *Recorder) Set(k string, v any)         { r.mu.Lock(); r.extra[k] = v; r.mu.Unlock() }
-func (r *Recorder) Evals() int64                { r.mu.Lock(); defer r.mu.Unlock(); return r.evals }
+func (r *Recorder) Class(c string)          { r.mu.Lock(); r.classes[c]++; r.mu.Unlock() }
+func (r *Recorder) Excluded(c string)       { r.mu.Lock(); r.excluded[c]++; r.mu.Unlock() }
+func (r *Recorder) Count(c string, n int64) { r.mu.Lock(); r.counters[c] += n; r.mu.Unlock() }
+func (r *Recorder) Set(k string, v any)     { r.mu.Lock(); r.extra[k] = v; r.mu.Unlock() }
+func (r *Recorder) Evals() int64            { r.mu.Lock(); defer r.mu.Unlock(); return r.evals }
 func (r *Recorder) Sample(v any) {
 	r.mu.Lock()
 	defer r.mu.Unlock()
